@@ -158,7 +158,7 @@ class HilbertClimateNetwork(ClimateNetwork):
         :arg number threshold: The similarity threshold.
         """
         ClimateNetwork.set_threshold(self, threshold)
-        if self.directed and self._coherence_phase is not None:
+        if self.directed and self.phase_shift() is not None:
             self._set_directed(True, calculate_coherence=False)
 
     def set_directed(self, directed):
@@ -235,4 +235,8 @@ class HilbertClimateNetwork(ClimateNetwork):
         :rtype: 2D Numpy array [index, index]
         :return: the average phase shift matrix.
         """
+        if not hasattr(self, "_coherence_phase"):
+            #  (deleted by clear_cache)
+            self._coherence_phase = \
+                self._calculate_hilbert_correlation(self.data.anomaly())[1]
         return self._coherence_phase
